@@ -132,6 +132,9 @@ func (c *Call) prepare() *prepared {
 	var unscoped valid.RM
 	if s.Unscoped != nil {
 		unscoped = toRM(s.Unscoped)
+		if s.RMSlot != "" {
+			unscoped = slotRM(s.RMSlot, s.Unscoped)
+		}
 		p.rms = append(p.rms, unscoped)
 		p.rmsCp = append(p.rmsCp, copyMap(s.Unscoped))
 	}
@@ -165,6 +168,25 @@ func (c *Call) prepare() *prepared {
 	}
 	p.call = func() error { return s.callWith(src, unscoped, perType, names, decoys...) }
 	return p
+}
+
+// rmSlots: rule-map objects that live as long as one history (StructCase.RMSlot).
+var rmSlots = map[string]valid.RM{}
+
+// slotRM refills the slot's rule-map object in place with the given rules.
+func slotRM(slot string, m map[string]string) valid.RM {
+	rm := rmSlots[slot]
+	if rm == nil {
+		rm = valid.NewRule()
+		rmSlots[slot] = rm
+	}
+	for k := range rm {
+		delete(rm, k)
+	}
+	for k, v := range m {
+		rm[k] = v
+	}
+	return rm
 }
 
 func copyMap(m map[string]string) map[string]string {
@@ -491,4 +513,13 @@ func perCallFn(n string) valid.CommonValidFn {
 		return recordingFn("call", n)
 	}
 	return customFn("call", n)
+}
+
+func sortedKeys(m map[string]string) []string {
+	out := make([]string, 0, len(m))
+	for k := range m {
+		out = append(out, k)
+	}
+	sort.Strings(out)
+	return out
 }
